@@ -120,6 +120,27 @@ class Lib(object):
             st.assume(Val.is_VSlice(z))
             yield st, SVal({"start": Val.sstart, "stop": Val.sstop, "step": Val.sstep}[name](z))
             return
+        if isinstance(o, (SVal, SType)) and name in ("__name__", "__module__", "__class__"):
+            self.used.add("reading __name__/__module__/__class__ of an object is a pure lookup (no user code runs); "
+                          "the __name__ of a module object is text")
+            r = self.spec.uf["meta_attr"](to_val(o), seq_lit(name))
+            if name == "__name__":
+                st.assume(z3.Implies(self.spec.uf["is_module"](to_val(o)),
+                                     z3.And(Val.is_VStr(r), z3.Length(self.P(engine, st, "utf8", SStr(Val.vs(r))).z) < 2 ** 32)))
+            yield st, SVal(r)
+            return
+        if isinstance(o, SVal) and name in ("____conn__", "____id_pack__"):
+            # slots of a proxy object, read through object.__getattribute__ (LOCAL_ATTRS): no request, no user code.
+            # Only proxies have them: the value must provably be a proxy here.
+            from .specenv import Ctx
+            isn = ops._z(truth(self.P(engine, st, "is_netref", o)))
+            isn = z3.Or(isn, self.spec.uf["has_attr"](o.z, seq_lit(name)))
+            engine.oblige(st, "netref-slot:%s on a proxy@L%d[%s]" % (name, engine.rel_line(node), engine.path_label(st)),
+                          isn, props=engine.all_props(engine.cur[1]), kind="pre",
+                          note="the proxy slots exist on proxies only")
+            st.assume(isn)
+            yield st, self.P(engine, st, "netref_conn" if name == "____conn__" else "netref_idpack", o)
+            return
         if isinstance(o, SVal) and name not in ("decode", "encode", "startswith"):
             for r in self.dyn_attr_event(engine, st, "GetAttr", o, name, node):
                 yield r
@@ -171,7 +192,10 @@ class Lib(object):
                 return
             raise Unsupported("list method %s on list[bytes]" % name)
         if isinstance(recv, str) and name == "format":
-            yield st, SStr(fresh("formatted", Bytes))       # text formatting: an opaque text (messages only)
+            self.used.add("str.format: an opaque text; its UTF-8 form is shorter than 4 GiB")
+            r = SStr(fresh("formatted", Bytes))
+            st.assume(z3.Length(self.P(engine, st, "utf8", r).z) < 2 ** 32)
+            yield st, r
             return
         if isinstance(recv, (bytes, str)) and name == "join" and len(args) == 1:
             a = args[0]
@@ -763,6 +787,28 @@ class Lib(object):
                 exact = z3.Or(exact, Val.is_VBool(v))
             yield st, b2v(z3.Or(exact, sub))
             return
+        import inspect as _inspect
+        if f is id and len(args) == 1:
+            self.used.add("id(x): an integer naming the object (T-ID: distinct for simultaneously live objects)")
+            r = self.spec.uf["py_id"](to_val(args[0]))
+            st.assume(z3.And(r >= 0, r < 2 ** 64))
+            yield st, SInt(r)
+            return
+        if f is print:
+            yield st, None            # A-LOG
+            return
+        if f is _inspect.ismodule and len(args) == 1:
+            yield st, b2v(self.spec.uf["is_module"](to_val(args[0])))
+            return
+        if f is _inspect.isclass and len(args) == 1:
+            yield st, b2v(self.spec.uf["is_class"](to_val(args[0])))
+            return
+        if f is getattr and len(args) == 3 and isinstance(args[0], SVal) and args[1] in ("__name__", "__module__"):
+            self.used.add("getattr(obj, '__name__', default): a pure lookup")
+            # the attribute, or the default if the object has none
+            has = self.spec.uf["has_attr"](args[0].z, seq_lit(args[1]))
+            yield st, merge_values(has, SVal(self.spec.uf["meta_attr"](args[0].z, seq_lit(args[1]))), args[2])
+            return
         if f is hasattr and len(args) == 2 and (isinstance(args[0], SVal) or isinstance(args[0], SType)):
             self.used.add("hasattr(obj, name): a pure predicate of (object, name) - assumed free of side effects")
             nm = engine.narrow(st, args[1], "str", node, "attribute name")
@@ -1142,6 +1188,10 @@ class Lib(object):
                 yield r
             return
         raise Unsupported("with %r" % (cm,))
+
+    def contains_sysmodules(self, engine, st, x):
+        self.used.add("`name in sys.modules`: an uninterpreted predicate of the name")
+        return b2v(self.spec.uf["in_sys_modules"](to_val(x)))
 
     def contains_obj(self, engine, st, coll, x, node):
         if coll.kind == "dict":
